@@ -82,7 +82,13 @@ def r12_2(ctx) -> None:
     var = next(iter(rv)) if okb else None
     if okb:
         defs = [d for d in eng.flow._defs(fn).get(var, []) if d[0] == "assign"]
-        okb = len(defs) == 1 and norm(defs[0][1]) in (f"{sn}.dict_value.copy()", f"dict({sn}.dict_value)", f"{{**{sn}.dict_value}}")
+        from .c05 import _resolve_local
+        okb = len(defs) == 1 and _resolve_local(eng, fn, defs[0][1]) in (f"{sn}.dict_value.copy()", f"dict({sn}.dict_value)", f"{{**{sn}.dict_value}}")
+        if okb and isinstance(defs[0][1], ast.Name):
+            # returned through an alias of the copy: the aliased local must not be stored anywhere else
+            al = defs[0][1].id
+            okb = not any(isinstance(n, ast.Assign) and any(not isinstance(t, ast.Name) for t in n.targets) and any(isinstance(x, ast.Name) and x.id == al for x in ast.walk(n.value))
+                          for n in ast.walk(fn.node))
     ctx.check(okb, "R12.2", fn, fn.node, "as_dict :: returns a copy", "as_dict does not return a fresh copy of the key's dict view (callers could alter the key, the filter could alter it)",
               "data = self.dict_value.copy()", construct="as_dict copy")
     # (c) on the private-is-False path every registry-private member is deleted
